@@ -981,6 +981,8 @@ void reb_integrator_whfast_part1(struct reb_simulation* const r){
         }
         reb_integrator_whfast_from_inertial(r);
         ri_whfast->recalculate_coordinates_this_timestep = 0;
+        // The internal coordinates now are the synchronized inertial ones (matters if keep_unsynchronized is set).
+        ri_whfast->is_synchronized = 1;
     }
     if (ri_whfast->is_synchronized){
         // First half DRIFT step
